@@ -130,13 +130,18 @@ func TestBoundedC16(t *testing.T) {
 		}()
 	})
 	// (2) print/parse round trip
-	var names []string
+	vLen, _ := strconv.Atoi(os.Getenv("GOVC_C16_VLEN"))
+	if vLen == 0 {
+		vLen = nvLen
+	}
+	var names, values []string
 	c16Strings(nvLen, func(s string) { names = append(names, s) })
+	c16Strings(vLen, func(s string) { values = append(values, s) })
 	for _, name := range names {
 		if name == "" || !utf8.ValidString(name) {
 			continue
 		}
-		for _, value := range names {
+		for _, value := range values {
 			for _, typ := range []labels.MatchType{labels.MatchEqual, labels.MatchNotEqual, labels.MatchRegexp, labels.MatchNotRegexp} {
 				m, err := labels.NewMatcher(typ, name, value)
 				if err != nil {
@@ -177,7 +182,7 @@ func TestBoundedC16(t *testing.T) {
 			}
 		}
 	}
-	out, _ := json.Marshal(map[string]any{"strings": nStrings, "matchers": nMatchers, "alphabet": c16Alphabet, "max_string_len": strLen, "max_name_value_len": nvLen, "failures": failures})
+	out, _ := json.Marshal(map[string]any{"strings": nStrings, "matchers": nMatchers, "alphabet": c16Alphabet, "max_string_len": strLen, "max_name_len": nvLen, "max_value_len": vLen, "failures": failures})
 	fmt.Printf("GOVC-BOUNDED %s\n", out)
 	if len(failures) > 0 {
 		t.Fatalf("%d failures, first: %s", len(failures), failures[0])
